@@ -64,7 +64,12 @@ FirstSnap(r, R, t, o, j) ==
 
 (* later snapshots of the same stop: nothing may have changed *)
 LaterSnap(r, R, t, o, j) ==
-  IF o.line # t.line THEN Viol(r, t, "reported frame changed while stopped")
+  IF o.line # t.line
+  THEN (* PauseRace, third shape: pause stored a stale pc, and the machine thread's in-flight iteration then hit a breakpoint at the *)
+       (* real pc and stored Stopped(real pc): the frame is CORRECTED while stopped (second stopped event, registers unchanged)   *)
+       IF t.inflight > 0 /\ j = t.at /\ o.line = LineOf(r, R, j) /\ t.line # LineOf(r, R, j)
+       THEN Devi(r, [t EXCEPT !.line = o.line, !.inflight = 0], "PauseRace", "stale frame line " \o ToString(t.line) \o " replaced by line " \o ToString(o.line) \o " while stopped (in-flight breakpoint check of the machine thread)")
+       ELSE Viol(r, t, "reported frame changed while stopped")
   ELSE IF j = t.at THEN t
   ELSE IF j = t.at + 1 /\ t.inflight > 0
        THEN Devi(r, [t EXCEPT !.at = j, !.inflight = 0], "PauseRace", "registers changed while stopped: the machine thread executed its in-flight instruction (run index " \o ToString(t.at) \o " -> " \o ToString(j) \o ")")
@@ -81,6 +86,24 @@ Snap(r, R, t, o) ==
             ELSE IF o.ev # EvalOf(c) /\ ~(t.inflight > 0 /\ o.ev = EvalOf(R[Succ(R, j)]))
                  THEN Viol(r, [t EXCEPT !.first = FALSE], "evaluate does not reflect the registers of the same instant")
             ELSE IF t.first THEN FirstSnap(r, R, t, o, j) ELSE LaterSnap(r, R, t, o, j)
+
+(* Registers read while the machine runs freely (the client saw no stop since the last launch/continue). The reading is  *)
+(* an instant p of the run (runner read lock). Every breakpoint installed before it is in force for every instruction    *)
+(* after p (instruction p itself may already have passed its check: one in-flight instruction of grace), so p becomes the *)
+(* new anchor of the free run with ALL current breakpoints armed. Before that, the stretch up to p is judged as usual.    *)
+Probe(r, R, t, o) ==
+  IF t.mode # "running" THEN t
+  ELSE LET js == {j \in 1..Len(R) : R[j].cyc = o.cyc} IN
+       IF js = {} THEN Viol(r, t, "registers of the running machine (CYC=" \o ToString(o.cyc) \o ") correspond to no instant of the run")
+       ELSE LET j == CHOOSE j \in js : TRUE
+                sk == Skipped(r, R, t, j)
+                t1 == [t EXCEPT !.resume = j, !.exempt = TRUE, !.stable = t.bps] IN
+            IF <<R[j].a, R[j].x, R[j].y>> # <<o.a, o.x, o.y>> THEN Viol(r, t, "registers of the running machine are not those of the instant CYC names")
+            ELSE IF j < t.resume THEN Viol(r, t, "running machine is behind the point it was resumed from")
+            ELSE IF sk # {} THEN Viol(r, t1, "NoSkippedBreakpoint: executed run index " \o ToString(CHOOSE k \in sk : TRUE) \o " at a breakpoint line without stopping")
+            ELSE IF t.bps # {} /\ j > 1 /\ j < Len(R) /\ \E k \in (j + 1)..(Len(R) - 1) : LineOf(r, R, k) \in t.bps
+                 THEN [t1 EXCEPT !.out = Append(@, V(r.id, "info", "ProbeAnchored", "1"))]     \* non-vacuity: the breakpoint line is still ahead
+            ELSE t1
 
 Obs1(r, R, t, o) ==
   CASE o.k = "setbps" -> [t EXCEPT !.bps = SeqSet(o.lines), !.stable = IF t.mode = "running" THEN @ \cap SeqSet(o.lines) ELSE SeqSet(o.lines)]
@@ -108,6 +131,7 @@ Obs1(r, R, t, o) ==
                  ELSE [t EXCEPT !.mode = "terminated"]
             [] OTHER -> t)
     [] o.k = "snap" -> Snap(r, R, t, o)
+    [] o.k = "probe" -> Probe(r, R, t, o)
     [] OTHER -> t
 
 RECURSIVE Fold1(_, _, _, _)
@@ -124,7 +148,11 @@ Ev2(r, R, h, e, n) ==
   LET a == h.a
       pcNow == Addr(r, Pc(R, a.ix)) IN
   CASE e.ev = "start" -> IF a.st.k = "Launching" THEN [h EXCEPT !.a = Start(a)] ELSE Rej(h, n, "start while not launching")
-    [] e.ev = "set_bps" -> [h EXCEPT !.a = SetBps(a, {IdxOfAddr(r, e.pcs[k]) : k \in 1..Len(e.pcs)})]
+    [] e.ev = "set_bps" ->
+         LET idxs == {IdxOfAddr(r, e.pcs[k]) : k \in 1..Len(e.pcs)} \ {0} IN
+         IF idxs # PcsOfLines(r.lines, {r.lines[k] : k \in idxs})        \* Debugger!BpPcs: a line's breakpoint is all its instructions
+         THEN Rej(h, n, "set_bps: the machine breakpoints are not ALL instructions assembled from their source lines")
+         ELSE [h EXCEPT !.a = SetBps(a, idxs)]
     [] e.ev = "m_read" -> IF MReadEn(a) /\ a.st.k = "Running" THEN [h EXCEPT !.a = MRead(a)] ELSE Rej(h, n, "m_read(Running) not enabled")
     [] e.ev = "m_check" ->
          IF ~MCheckEn(a) THEN Rej(h, n, "m_check not enabled")
@@ -135,7 +163,7 @@ Ev2(r, R, h, e, n) ==
          ELSE [h EXCEPT !.a = MCheck(R, a)]
     [] e.ev = "m_exec" ->
          IF ~MExecEn(a) THEN Rej(h, n, "m_exec not enabled")
-         ELSE IF e.pc # pcNow \/ e.state # a.st.k THEN Rej(h, n, "m_exec: pc or state differs")
+         ELSE IF e.pc # pcNow THEN Rej(h, n, "m_exec: pc differs")      \* (e.state is read just before the instruction, not atomically with this log line: not compared)
          ELSE LET a1 == MExec(R, a, Impl) IN
               IF e["end"] # AtEnd(R, a.ix) THEN Rej(h, n, "m_exec: end of test differs")
               ELSE IF e.pc1 # Addr(r, Pc(R, a1.ix)) \/ e.cyc # R[a1.ix].cyc THEN Rej(h, n, "m_exec: successor state differs from DbgCpu!Step")
